@@ -20,6 +20,7 @@ SPECS = [
 ACTIVE: list[int] = []
 
 PROPS = [(40, "fixed", 4), (60, "fixed", 4), (40, "adaptive", 8), (40, "fixed", 8)]
+SYSPROPS = [(1, "adaptive", 8), (-1, "adaptive", 8), (1, "fixed", 4), (-1, "fixed", 4)]
 TOLS = [1e-10, 1e-6]
 ATTEMPTS = [50, 1]
 READS = ["period", "initial_state", "energy", "monodromy", "stability_indices", "eigenvalues", "is_stable", "jacobi", "amplitude", "corr_tol"]
@@ -33,14 +34,15 @@ ALPHABET = (
     + [("propagate", i) for i in range(len(PROPS))]
     + [("trajectory",), ("bad_period",), ("set_amp", 0), ("save_load",), ("load_inplace",), ("save_fault", "enospc"), ("save_fault", "eio"),
        ("save_torn_load",), ("generate", 0), ("generate", 1)]
+    + [("sys_propagate", i) for i in range(len(SYSPROPS))]
 )
 WEIGHTS = {"set_period": 1.2, "correct": 1.0, "set_opts": 0.5, "correct_default": 1.0, "read": 1.0, "propagate": 1.0, "trajectory": 3.0,
-           "bad_period": 1.0, "set_amp": 0.7, "save_load": 0.25, "load_inplace": 0.15, "save_fault": 0.5, "save_torn_load": 0.3, "generate": 0.35}
+           "bad_period": 1.0, "set_amp": 0.7, "save_load": 0.25, "load_inplace": 0.15, "save_fault": 0.5, "save_torn_load": 0.3, "generate": 0.35, "sys_propagate": 0.9}
 REDUCED = [("set_period", "x1.1"), ("set_period", "none"), ("correct", 0, 0), ("correct", 1, 1), ("set_opts", 1), ("correct_default",),
            ("read", "period"), ("read", "monodromy"), ("read", "stability_indices"), ("propagate", 0), ("propagate", 1), ("trajectory",),
            ("bad_period",), ("save_fault", "enospc")]
 MUTATORS = {"set_period", "correct", "set_opts", "correct_default", "set_amp", "save_load", "load_inplace"}
-INTEGRATING = {"correct", "correct_default", "propagate", "generate"}
+INTEGRATING = {"correct", "correct_default", "propagate", "generate", "sys_propagate"}
 INTEGRATING_READS = {"monodromy", "stability_indices", "eigenvalues", "is_stable"}
 
 
@@ -61,7 +63,7 @@ def _merge_opts(o, tol, ma):
 
 
 def warmup(U, tier):
-    ACTIVE[:] = [0, 1, 2, 3] + ([4] if tier == "thorough" else [])
+    ACTIVE[:] = [0, 1, 2, 3, 4]   # the Sun-Earth spec gives two systems (two mass ratios) inside one process also in the quick tier
     for i in ACTIVE:
         s = SPECS[i]
         lp = _lp_cls(s["point"])(U["sys_twin"][s["sys"]])
@@ -81,6 +83,8 @@ def warmup(U, tier):
                 o.propagate(steps=st, method=m, order=od)
             o.monodromy
             o.stability_indices
+            for (fwd, m, od) in SYSPROPS:
+                o.system.propagate(s["x0"].copy(), tf=0.8, steps=60, method=m, order=od, forward=fwd)
 
 
 # --------------------------------------------------------------------------- model / twin
@@ -156,6 +160,10 @@ def apply(o, op, model):
     if k == "set_opts":
         o.correction_options = _merge_opts(o, TOLS[op[1]], ATTEMPTS[0])
         return None
+    if k == "sys_propagate":
+        fwd, m, od = SYSPROPS[op[1]]
+        tr = o.system.propagate(np.array(model["x"], float), tf=0.8, steps=60, method=m, order=od, forward=fwd)
+        return {"states": np.array(tr.states), "times": np.array(tr.times)}
     if k == "generate":
         from hiten.algorithms.continuation.options import OrbitContinuationOptions
         idx = int(o.continuation_config.state_indices[0])
@@ -393,6 +401,21 @@ def step(ctx, U, ob, j, op, hist):
         what = k + ("-" + str(op[1]) if k == "read" else "")
         detail = _first_diff(r_out.value, t_out.value)
         raise Violation(f"C20/orbit/value-{what}", f"{op} returned {detail} | history: {hist}")
+    if k == "sys_propagate" and not r_out.failed:
+        # independent reference (the twins share process-wide compiled-function caches with the object under test):
+        # the end point of system.propagate must be the flow of the CR3BP over +-tf from the same start
+        from models import cr3bp_ref
+        from scipy.integrate import solve_ivp
+        fwd = SYSPROPS[op[1]][0]
+        mu = float(U["sys_twin"][SPECS[model["spec"]]["sys"]].mu)
+        ref = twin_memo(("sysprop-ref", mu, model["x"], fwd), lambda: solve_ivp(cr3bp_ref.rhs(mu), (0.0, fwd * 0.8), np.array(model["x"], float),
+                                                                                 method="DOP853", rtol=1e-12, atol=1e-13).y[:, -1])
+        err = float(np.max(np.abs(r_out.value["states"][-1] - ref)))
+        if err > 1e-6 or abs(float(r_out.value["times"][-1]) - fwd * 0.8) > 1e-12:
+            raise Violation("C20/system/propagate-vs-independent", f"system.propagate(forward={fwd}, {SYSPROPS[op[1]][1]} order {SYSPROPS[op[1]][2]}) from {brief(model['x'])} ends at "
+                                                                   f"{brief(r_out.value['states'][-1])}, t={r_out.value['times'][-1]}; an independent DOP853 integration over "
+                                                                   f"{fwd * 0.8} ends at {brief(ref)} (|diff|={err:.3e}) | history: {hist}")
+        ctx.probe("system_propagate_checked_independently")
     if k == "propagate" and not r_out.failed:
         model["lastprop"] = op[1]
     if k in MUTATORS or r_out.failed or k == "bad_period":
